@@ -80,6 +80,57 @@ type gl struct {
 	heapT       string
 	heapWr      bool            // the function being translated writes the heap
 	heapFuncs   map[string]bool // translated name -> writes the heap
+	recT        map[string]bool     // named struct types handled as records (Option tuple behind a pointer)
+	extFuncs    map[string]extFunc  // "pkg.Func" -> parameter
+	extUsed     map[string]bool
+	recLocal    map[types.Object]bool // struct-pointer locals holding a record under construction
+	retSuffix   []string              // receiver fields handed back with every result
+	u64AsInt    bool
+	synthRhs    map[ast.Expr]string
+}
+
+// isRecPtr: t is *T for a record type T
+func (g *gl) isRecPtr(t types.Type) bool {
+	p, ok := t.(*types.Pointer)
+	if !ok {
+		return false
+	}
+	n, ok := p.Elem().(*types.Named)
+	return ok && n.Obj().Pkg() == g.pkg && g.recT[n.Obj().Name()]
+}
+
+// extCall: a call pkg.F(args) of a function kept as a parameter
+func (g *gl) extCall(c *ast.CallExpr) (string, bool) {
+	sel, ok := c.Fun.(*ast.SelectorExpr)
+	if !ok {
+		return "", false
+	}
+	id, ok := sel.X.(*ast.Ident)
+	if !ok {
+		return "", false
+	}
+	pn, ok := g.info.Uses[id].(*types.PkgName)
+	if !ok {
+		return "", false
+	}
+	key := pn.Imported().Path() + "." + sel.Sel.Name
+	ef, ok := g.extFuncs[key]
+	if !ok {
+		return "", false
+	}
+	g.extUsed[key] = true
+	parts := []string{ef.param}
+	for _, a := range c.Args {
+		parts = append(parts, g.expr(a).arg())
+	}
+	return strings.Join(parts, " "), true
+}
+
+// records mode (bed read side): *recT values are Option tuples built in a struct-pointer local; calls of
+// stdlib functions listed in extFuncs are parameters of the translated function (uninterpreted: their assumed
+// behaviour is a hypothesis of the theorems); *bufio.Reader is the abstract BufRd
+type extFunc struct {
+	param, typ string
 }
 
 const heapLean = "List (List (UInt8 × Int))"
@@ -166,6 +217,7 @@ func (g *gl) opaqueName(t types.Type) string {
 }
 
 type glFunc struct {
+	exts    []string // stdlib functions it (transitively) takes as parameters, sorted
 	fuel    bool // takes a leading `fuel : Nat` parameter
 	name    string
 	globals []string // transitive, sorted in first-use order
@@ -193,9 +245,21 @@ func (g *gl) leanType(t types.Type) string {
 	if g.isHeapPtr(t) {
 		return "Int"
 	}
+	if g.isRecPtr(t) {
+		return "Option " + paren(g.leanType(t.(*types.Pointer).Elem()))
+	}
+	if p, ok := t.(*types.Pointer); ok {
+		if n, ok := p.Elem().(*types.Named); ok && n.Obj().Pkg() != nil && n.Obj().Pkg().Path() == "bufio" && n.Obj().Name() == "Reader" {
+			return "BufRd"
+		}
+	}
 	switch u := t.Underlying().(type) {
 	case *types.Basic:
 		switch u.Kind() {
+		case types.Uint64:
+			if g.u64AsInt {
+				return "Int"
+			}
 		case types.Int, types.UntypedInt, types.UntypedRune:
 			return "Int"
 		case types.Uint8:
@@ -253,6 +317,12 @@ func paren(s string) string {
 func (g *gl) zero(t types.Type) string {
 	if g.isHeapPtr(t) {
 		return "(-1 : Int)"
+	}
+	if g.isRecPtr(t) {
+		return "none"
+	}
+	if isErr(t) {
+		return "GoErr.nil"
 	}
 	switch u := t.Underlying().(type) {
 	case *types.Basic:
@@ -532,6 +602,13 @@ func (g *gl) ident(id *ast.Ident) ex {
 			g.globals[o.Name()] = true
 			return atomE("g_" + o.Name())
 		}
+		if g.recLocal[o] {
+			var parts []string
+			for _, f := range g.structLoc[o] {
+				parts = append(parts, id.Name+"_"+f)
+			}
+			return atomE("(some (" + strings.Join(parts, ", ") + "))")
+		}
 		return atomE(g.nameOf(o))
 	case *types.Nil:
 		return atomE("[]")
@@ -552,6 +629,21 @@ func (g *gl) indexInt(e ast.Expr) string {
 func (g *gl) expr(e ast.Expr) ex {
 	if c, ok := g.constant(e); ok {
 		return c
+	}
+	if tv, ok := g.info.Types[e]; ok && g.rdKind == "" && tv.IsNil() && g.recT != nil {
+		if id, isId := e.(*ast.Ident); isId && id.Name == "nil" && tv.Type != nil {
+			switch {
+			case isErr(tv.Type):
+				return atomE("GoErr.nil")
+			case g.isRecPtr(tv.Type):
+				return atomE("none")
+			}
+		}
+	}
+	if g.synthRhs != nil {
+		if t, ok := g.synthRhs[e]; ok {
+			return atomE(t)
+		}
 	}
 	if tv, ok := g.info.Types[e]; ok && g.rdKind != "" {
 		if tv.IsNil() {
@@ -735,9 +827,32 @@ func (g *gl) expr(e ast.Expr) ex {
 	return ex{}
 }
 
+// nilOf: the Lean term for Go's nil at type t ("" = not a type with a nil the translation knows)
+func (g *gl) nilOf(t types.Type) string {
+	switch {
+	case isErr(t):
+		return "GoErr.nil"
+	case g.isRecPtr(t):
+		return "none"
+	case g.isHeapPtr(t):
+		return "(-1 : Int)"
+	}
+	return ""
+}
+
+func isNilIdent(e ast.Expr) bool {
+	id, ok := e.(*ast.Ident)
+	return ok && id.Name == "nil"
+}
+
 func (g *gl) binary(v *ast.BinaryExpr) ex {
 	lt := g.typeOf(v.X)
 	l, r := g.expr(v.X), g.expr(v.Y)
+	if isNilIdent(v.Y) && g.rdKind == "" {
+		if n := g.nilOf(lt); n != "" {
+			r = atomE(n)
+		}
+	}
 	infix := func(op string) ex { return ex{text: l.arg() + " " + op + " " + r.arg()} }
 	hasAct := func(e ex) bool { return e.act || strings.Contains(e.text, "(← ") }
 	switch v.Op {
@@ -867,6 +982,11 @@ func (e ex) opnd2() string {
 }
 
 func (g *gl) call(c *ast.CallExpr) ex {
+	if g.extFuncs != nil {
+		if txt, ok := g.extCall(c); ok {
+			return ex{text: txt}
+		}
+	}
 	if g.heapT != "" {
 		if txt, wrs, ok := g.heapCall(c); ok {
 			if wrs {
@@ -888,6 +1008,8 @@ func (g *gl) call(c *ast.CallExpr) ex {
 		a := g.expr(c.Args[0])
 		switch {
 		case isByte(tv.Type) && isInt(from):
+			return ex{text: "u8 " + a.arg()}
+		case isByte(tv.Type) && g.u64AsInt && func() bool { b, ok := from.Underlying().(*types.Basic); return ok && b.Kind() == types.Uint64 }():
 			return ex{text: "u8 " + a.arg()}
 		case isInt(tv.Type) && isByte(from):
 			return ex{text: "(" + a.arg() + ".toNat : Int)", atom: true}
@@ -956,6 +1078,10 @@ func (g *gl) call(c *ast.CallExpr) ex {
 				g.globals[gv] = true
 				parts = append(parts, "g_"+gv)
 			}
+			for _, k := range callee.exts {
+				g.extUsed[k] = true
+				parts = append(parts, g.extFuncs[k].param)
+			}
 			if callee.fuel {
 				g.usesFuel = true
 				parts = append(parts, "fuel")
@@ -1020,7 +1146,18 @@ func (g *gl) call(c *ast.CallExpr) ex {
 				if pn.Imported().Path() == "bytes" && f.Sel.Name == "HasPrefix" && len(c.Args) == 2 {
 					return ex{text: "List.isPrefixOf " + g.expr(c.Args[1]).arg() + " " + g.expr(c.Args[0]).arg()}
 				}
-				if pn.Imported().Path() == "fmt" && f.Sel.Name == "Errorf" && g.rdKind != "" {
+				if pn.Imported().Path() == "strings" && f.Sel.Name == "TrimSuffix" && len(c.Args) == 2 {
+					return ex{text: "trimSuffix " + g.expr(c.Args[0]).arg() + " " + g.expr(c.Args[1]).arg()}
+				}
+				if pn.Imported().Path() == "strings" && f.Sel.Name == "Split" && len(c.Args) == 2 {
+					// with a one-byte constant separator strings.Split is the model's splitOn
+					sv, ok := g.info.Types[c.Args[1]]
+					if !ok || sv.Value == nil || sv.Value.Kind() != constant.String || len(constant.StringVal(sv.Value)) != 1 {
+						g.die(c, "strings.Split with a separator that is not a one-byte constant")
+					}
+					return ex{text: fmt.Sprintf("splitOn %d %s", constant.StringVal(sv.Value)[0], g.expr(c.Args[0]).arg())}
+				}
+				if pn.Imported().Path() == "fmt" && f.Sel.Name == "Errorf" && (g.rdKind != "" || g.recT != nil) {
 					return atomE("GoErr.other") // the message is not modelled
 				}
 				if pn.Imported().Path() == "strings" && f.Sel.Name == "ContainsAny" && len(c.Args) == 2 {
@@ -1197,12 +1334,48 @@ func (g *gl) heapCall(c *ast.CallExpr) (string, bool, bool) {
 	return strings.Join(parts, " "), wr, true
 }
 
+// readStringCall: c is <recv>.<field>.ReadString(delim) on a receiver field of type *bufio.Reader
+func (g *gl) readStringCall(c *ast.CallExpr) (string, string, bool) {
+	sel, ok := c.Fun.(*ast.SelectorExpr)
+	if !ok || sel.Sel.Name != "ReadString" || len(c.Args) != 1 {
+		return "", "", false
+	}
+	inner, ok := sel.X.(*ast.SelectorExpr)
+	if !ok {
+		return "", "", false
+	}
+	id, ok := inner.X.(*ast.Ident)
+	if !ok || g.structLoc[g.objOf(id)] == nil {
+		return "", "", false
+	}
+	if tv, ok := g.info.Types[inner]; !ok || g.leanTypeOK(tv.Type) != "BufRd" {
+		return "", "", false
+	}
+	return id.Name + "_" + inner.Sel.Name, g.expr(c.Args[0]).arg(), true
+}
+
+// leanTypeOK is leanType without the bail-out ("" when the type cannot be expressed)
+func (g *gl) leanTypeOK(t types.Type) (s string) {
+	defer func() {
+		if r := recover(); r != nil {
+			if _, isBail := r.(bail); !isBail {
+				panic(r)
+			}
+			s = ""
+		}
+	}()
+	return g.leanType(t)
+}
+
 // oneLit stands for the constant 1 of `x++` / `x--`
 var oneLit = &ast.BasicLit{Kind: token.INT, Value: "1"}
 
 func (g *gl) rhsOf(e ast.Expr) ex {
 	if e == ast.Expr(oneLit) {
 		return atomE("1")
+	}
+	if t, ok := g.synthRhs[e]; ok {
+		return atomE(t)
 	}
 	return g.expr(e)
 }
@@ -1337,11 +1510,17 @@ func (g *gl) assignTo(w *wr, lhs ast.Expr, tok token.Token, rhs ast.Expr) {
 				return
 			}
 		}
-		id, ok := l.X.(*ast.Ident)
-		if !ok || !isList(g.typeOf(l.X)) {
+		name := ""
+		if id, ok := l.X.(*ast.Ident); ok && isList(g.typeOf(l.X)) {
+			name = g.lvName(id)
+		} else if se, ok := l.X.(*ast.SelectorExpr); ok && isList(g.typeOf(l.X)) {
+			if sid, ok := se.X.(*ast.Ident); ok && g.structLoc[g.objOf(sid)] != nil {
+				name = g.expr(se).text // the variable standing for the field
+			}
+		}
+		if name == "" {
 			break
 		}
-		name := g.lvName(id)
 		i := g.indexInt(l.Index)
 		var val string
 		if tok == token.ASSIGN {
@@ -1433,16 +1612,31 @@ func (g *gl) stmt(w *wr, s ast.Stmt) {
 			if c, ok := v.Rhs[0].(*ast.CallExpr); ok {
 				if tup, ok := g.typeOf(c).(*types.Tuple); ok && tup.Len() == len(v.Lhs) {
 					t := g.tmp()
-					w.line(bindText("let ", t, g.expr(c)))
+					nproj := tup.Len()
+					if fld, delim, ok := g.readStringCall(c); ok {
+						// line, err := r.r.ReadString(d): the reader field is a state that the call advances
+						w.line("let " + t + " := readString " + fld + " " + delim)
+						w.line(fld + " := " + t + ".2.2")
+						nproj = 3
+					} else {
+						w.line(bindText("let ", t, g.expr(c)))
+					}
 					for i, l := range v.Lhs {
 						id, ok := l.(*ast.Ident)
 						if !ok {
-							g.die(v, "multi-value assignment target")
+							// a field or an element: assigned like any other value
+							fake := &ast.BasicLit{Kind: token.INT, Value: "0"}
+							if g.synthRhs == nil {
+								g.synthRhs = map[ast.Expr]string{}
+							}
+							g.synthRhs[fake] = tupleProj(t, i, nproj)
+							g.assignTo(w, l, token.ASSIGN, fake)
+							continue
 						}
 						if id.Name == "_" {
 							continue
 						}
-						proj := tupleProj(t, i, tup.Len())
+						proj := tupleProj(t, i, nproj)
 						if v.Tok == token.DEFINE && g.info.Defs[id] != nil {
 							kw := "let "
 							if g.mut[g.objOf(id)] {
@@ -1494,6 +1688,36 @@ func (g *gl) stmt(w *wr, s ast.Stmt) {
 				g.die(v, "multi-value :=")
 			}
 			id := v.Lhs[0].(*ast.Ident)
+			if u, ok := v.Rhs[0].(*ast.UnaryExpr); ok && u.Op == token.AND && g.rdKind == "" && g.recT != nil && g.isRecPtr(g.typeOf(u)) {
+				// bed := &BED{N: n}: a record under construction, one variable per field
+				cl, ok := u.X.(*ast.CompositeLit)
+				if !ok {
+					g.die(v, "record allocation")
+				}
+				st := g.typeOf(cl).Underlying().(*types.Struct)
+				inits := map[string]string{}
+				for _, el := range cl.Elts {
+					kv, ok := el.(*ast.KeyValueExpr)
+					if !ok {
+						g.die(v, "positional record literal")
+					}
+					inits[kv.Key.(*ast.Ident).Name] = g.expr(kv.Value).opnd()
+				}
+				var fs []string
+				for i := 0; i < st.NumFields(); i++ {
+					f := st.Field(i)
+					fs = append(fs, f.Name())
+					val := bareZero(g.zero(f.Type()))
+					if iv, ok := inits[f.Name()]; ok {
+						val = iv
+					}
+					g.takenMut[id.Name+"_"+f.Name()] = true
+					w.line("let mut " + id.Name + "_" + f.Name() + " : " + g.leanType(f.Type()) + " := " + val)
+				}
+				g.structLoc[g.objOf(id)] = fs
+				g.recLocal[g.objOf(id)] = true
+				return
+			}
 			if u, ok := v.Rhs[0].(*ast.UnaryExpr); ok && u.Op == token.AND && g.rdKind != "" {
 				if cl, ok := u.X.(*ast.CompositeLit); ok && len(cl.Elts) == 0 {
 					if st, ok := g.typeOf(cl).Underlying().(*types.Struct); ok {
@@ -1799,6 +2023,16 @@ func (g *gl) stmt(w *wr, s ast.Stmt) {
 				w.line("return log")
 				return
 			}
+		} else if g.rdKind == "" && len(v.Results) == 1 && len(g.results) > 1 && len(g.retSuffix) > 0 {
+			// return f(…) handing on all results of f, plus the receiver state
+			t := g.tmp()
+			w.line(bindText("let ", t, g.expr(v.Results[0])))
+			var parts []string
+			for i := range g.results {
+				parts = append(parts, tupleProj(t, i, len(g.results)))
+			}
+			w.line("return (" + strings.Join(append(parts, g.retSuffix...), ", ") + ")")
+			return
 		} else if len(v.Results) == 1 {
 			w.line("return " + g.expr(v.Results[0]).opnd())
 			return
@@ -1806,13 +2040,18 @@ func (g *gl) stmt(w *wr, s ast.Stmt) {
 			var parts []string
 			for i, r := range v.Results {
 				e := g.expr(r)
+				if isNilIdent(r) {
+					if n := g.nilOf(g.results[i].Type()); n != "" {
+						e = atomE(n)
+					}
+				}
 				if tv, ok := g.info.Types[r]; ok && tv.Value != nil {
 					parts = append(parts, "("+e.opnd()+" : "+g.leanType(g.results[i].Type())+")")
 				} else {
 					parts = append(parts, e.opnd())
 				}
 			}
-			w.line("return (" + strings.Join(parts, ", ") + ")")
+			w.line("return (" + strings.Join(append(parts, g.retSuffix...), ", ") + ")")
 			return
 		} else if g.rdKind == "" && len(v.Results) == 0 && g.namedRes {
 			var parts []string
@@ -1882,7 +2121,7 @@ func (g *gl) ifStmt(w *wr, v *ast.IfStmt, kw string) {
 					}
 				}
 			}
-			if !isCommaOk {
+			if !isCommaOk && !(g.recT != nil && g.rdKind == "" && v.Else == nil) {
 				g.die(v, "if with init")
 			}
 			g.stmt(w, a)
@@ -2019,6 +2258,33 @@ func (g *gl) readByteLoop(w *wr, v *ast.ForStmt) bool {
 
 func (g *gl) forStmt(w *wr, v *ast.ForStmt) {
 	if g.readByteLoop(w, v) {
+		return
+	}
+	if v.Init == nil && v.Post == nil && v.Cond == nil && g.rdKind == "" && g.yieldT == "" {
+		// for { … }: left only by return; at most `fuel` iterations, out of fuel = `none` (no claim)
+		hasBreak := false
+		ast.Inspect(v.Body, func(n ast.Node) bool {
+			switch x := n.(type) {
+			case *ast.ForStmt, *ast.RangeStmt, *ast.SwitchStmt, *ast.SelectStmt, *ast.FuncLit:
+				return n == ast.Node(v.Body) || x == nil
+			case *ast.BranchStmt:
+				if x.Tok == token.BREAK {
+					hasBreak = true
+				}
+			}
+			return true
+		})
+		if hasBreak {
+			g.die(v, "for { } with break")
+		}
+		g.usesFuel = true
+		w.line("for _ in List.range fuel do")
+		w.ind++
+		g.loops = append(g.loops, "for")
+		g.block(w, v.Body.List)
+		g.loops = g.loops[:len(g.loops)-1]
+		w.ind--
+		w.line("none")
 		return
 	}
 	if v.Init == nil && v.Post == nil && v.Cond != nil && g.rdKind == "" {
@@ -2552,6 +2818,10 @@ func (g *gl) funcOrMethod(recvType, goName, name, rel, placeholder string) {
 		sig := fd.Type
 		var params []string
 		var shadow []string
+		var recvTypes []string
+		g.retSuffix = nil
+		g.extUsed = map[string]bool{}
+		g.recLocal = map[types.Object]bool{}
 		if recvType != "" {
 			rn := fd.Recv.List[0].Names[0]
 			robj := g.info.Defs[rn]
@@ -2575,6 +2845,12 @@ func (g *gl) funcOrMethod(recvType, goName, name, rel, placeholder string) {
 					f := st.Field(i)
 					fs = append(fs, f.Name())
 					params = append(params, "("+rn.Name+"_"+f.Name()+" : "+g.leanType(f.Type())+")")
+					if g.recT != nil {
+						// records mode: the receiver's fields are state, handed back with every result
+						shadow = append(shadow, rn.Name+"_"+f.Name())
+						g.retSuffix = append(g.retSuffix, rn.Name+"_"+f.Name())
+						recvTypes = append(recvTypes, paren(g.leanType(f.Type())))
+					}
 				}
 				g.structLoc[robj] = fs
 			}
@@ -2629,7 +2905,7 @@ func (g *gl) funcOrMethod(recvType, goName, name, rel, placeholder string) {
 			for _, r := range g.results {
 				ts = append(ts, paren(g.leanType(r.Type())))
 			}
-			resT = "(" + strings.Join(ts, " × ") + ")"
+			resT = "(" + strings.Join(append(ts, recvTypes...), " × ") + ")"
 		}
 		if rt == nil {
 			resT = "Unit"
@@ -2737,6 +3013,20 @@ func (g *gl) funcOrMethod(recvType, goName, name, rel, placeholder string) {
 			params = append([]string{"(fuel : Nat)"}, params...)
 			g.funcs[name].fuel = true
 			doc += "; `fuel` bounds every `for cond { }` loop (out of fuel = `none`, no claim)"
+		}
+		if len(g.extUsed) > 0 {
+			var ks []string
+			for k := range g.extUsed {
+				ks = append(ks, k)
+			}
+			sort.Strings(ks)
+			g.funcs[name].exts = ks
+			var eps []string
+			for _, k := range ks {
+				eps = append(eps, "("+g.extFuncs[k].param+" : "+g.extFuncs[k].typ+")")
+				doc += "; `" + g.extFuncs[k].param + "` stands for " + k + " (a parameter: nothing is assumed about it here)"
+			}
+			params = append(eps, params...)
 		}
 		all := strings.TrimSpace(g.globalParams(globals) + " " + strings.Join(params, " "))
 		src := goName
@@ -3461,6 +3751,20 @@ func goLean(repo, out string) {
 		w.WriteString("\n")
 	}
 	g8 := loadPkg(filepath.Join(repo, "formats", "bed"))
+	// the read side: parseLine and (*reader).read.  *BED is an Option tuple, *bufio.Reader the abstract BufRd,
+	// strconv.Atoi / strconv.ParseUint are parameters
+	const BEDT = "(Int × (List UInt8) × Int × Int × (List UInt8) × Int × (List UInt8) × Int × Int × (List UInt8) × Int × (List Int) × (List Int))"
+	const ATOI, PUINT = "List UInt8 → Int × GoErr", "List UInt8 → Int → Int → Int × GoErr"
+	g8.recT = map[string]bool{"BED": true}
+	g8.u64AsInt = true
+	g8.extFuncs = map[string]extFunc{"strconv.Atoi": {"strconv_Atoi", ATOI}, "strconv.ParseUint": {"strconv_ParseUint", PUINT}}
+	g8.function("parseLine", "formats/bed", "def parseLine (strconv_Atoi : "+ATOI+") (strconv_ParseUint : "+PUINT+") (fields : "+BB+") : Option ((Option "+BEDT+") × GoErr) := none")
+	g8.method("reader", "read", "bed_read", "formats/bed", "def bed_read (strconv_Atoi : "+ATOI+") (strconv_ParseUint : "+PUINT+") (fuel : Nat) (r_r : BufRd) (r_nfields : Int) : Option ((Option "+BEDT+") × GoErr × BufRd × Int) := none")
+	g8.recT, g8.extFuncs = nil, nil
+	for _, n := range []string{"parseLine", "bed_read"} {
+		w.WriteString(g8.funcs[n].text)
+		w.WriteString("\n")
+	}
 	g8.writerMethod("bed_Write", "BED", "Write", "formats/bed",
 		"def bed_Write (b_N : Int) (b_Chrom : "+B+") (b_ChromStart : Int) (b_ChromEnd : Int) (b_Name : "+B+") (b_Score : Int) (b_Strand : "+B+") (b_ThickStart : Int) (b_ThickEnd : Int) (b_ItemRGB : "+B+") (b_BlockCount : Int) (b_BlockSizes : List Int) (b_BlockStarts : List Int) (w : Wr) : Option (GoErr × Wr) := none", nil)
 	w.WriteString(g8.funcs["bed_Write"].text + "\n")
